@@ -209,7 +209,8 @@ Step(st, e) ==
                     !.den = DenMerge(@, DenOf(e)), !.irrmode = e.irr_mode,
                     !.opened = FALSE, !.openAcked = FALSE, !.failed = FALSE, !.loadsAcked = TRUE,
                     !.commitSeen = FALSE, !.commitAcked = FALSE, !.closeDbAcked = FALSE, !.closeSessAcked = FALSE,
-                    !.faulted = FALSE, !.updated = {}, !.deleted = {}, !.nloads = 0, !.prevOk = FALSE,
+                    !.faulted = Has(e, "unreachable") /\ e.unreachable,      \* the router could not be reached at all
+                    !.updated = {}, !.deleted = {}, !.nloads = 0, !.prevOk = FALSE,
                     !.eph = IF Has(e, "twin") /\ e.twin THEN st.start ELSE IF st.eph = <<>> THEN e.eph ELSE st.eph]
     [] e.ev = "tamper" -> [st EXCEPT !.eph = e.eph, !.prevEnd = e.eph, !.den = DenMerge(@, DenOf(e))]   \* edited by hand
     [] e.ev = "reboot" -> [st EXCEPT !.eph = <<>>, !.prevEnd = <<>>]     \* the router lost its ephemeral data
@@ -218,13 +219,15 @@ Step(st, e) ==
     [] e.ev = "run_end" -> [st EXCEPT !.prevEnd = st.eph]
     [] OTHER -> st
 
+PropOf(st) == IF "prop" \in DOMAIN st.expect THEN st.expect.prop ELSE IOEnv.PROP
 LineViol(st, st1, e) ==
   CASE e.ev = "req" -> ReqViol(st, e, st1.staged)
     [] e.ev = "exit" -> ExitViol(st, e)
     [] e.ev = "run_end" -> EndViol(st, e) \cup TwinViol(st, e)
     [] e.ev = "daemon_end" ->
-         (IF e.sessions_seen < e.sessions_wanted THEN {V("C01", "DaemonStoppedRunning", "fewer runs than periods elapsed", e)} ELSE {})
-         \cup (IF e.panic_at # "" THEN {V("C01", "DaemonPanicked", "", e)} ELSE {})
+         (IF e.sessions_seen < e.sessions_wanted THEN {V(PropOf(st), "DaemonStoppedRunning", "fewer runs than periods elapsed", e)} ELSE {})
+         (* a panic that is contained (an unsupported construct in one policy) prints a message and nothing else *)
+         \cup (IF e.panic_at # "" /\ e.exit_code # 0 THEN {V(PropOf(st), "DaemonPanicked", "", e)} ELSE {})
     [] OTHER -> {}
 
 TInit == l = 1 /\ viol = {} /\ s = S0 /\ stats = [lines |-> 0, runs |-> 0, loads |-> 0, commits |-> 0, okruns |-> 0]
